@@ -121,6 +121,15 @@ func (c *Ctx) present(rule, key string, p token.Pos, note string) {
 	c.record(rule, key, "HOLDS", p, note, false)
 }
 
+// notDecided records an instance the rule could not decide because the code
+// uses an idiom outside the rule's fragment although nothing indicates a
+// defect (for example a recursion rewritten as a loop). It is listed in the
+// evidence and does not alarm.
+func (c *Ctx) notDecided(rule, key string, p token.Pos, reason string) {
+	c.record(rule, key, "NOT-DECIDED", p, reason, true)
+	c.NotDecided = append(c.NotDecided, fmt.Sprintf("%s:%s — %s", c.mapRule(rule), key, reason))
+}
+
 func (c *Ctx) exception(rule, key string, p token.Pos, reason string) {
 	c.record(rule, key, "EXCEPTION", p, reason, true)
 	e := fmt.Sprintf("%s:%s — %s", rule, key, reason)
@@ -241,7 +250,7 @@ func (c *Ctx) finish(wall time.Duration) int {
 		switch in.Status {
 		case "HOLDS":
 			a.holds++
-		case "EXCEPTION":
+		case "EXCEPTION", "NOT-DECIDED":
 			a.exc++
 		default:
 			a.bad++
@@ -254,6 +263,9 @@ func (c *Ctx) finish(wall time.Duration) int {
 	}
 	for _, e := range c.Exceptions {
 		fmt.Printf("  exception %s\n", e)
+	}
+	for _, e := range c.NotDecided {
+		fmt.Printf("  not-decided %s\n", e)
 	}
 	violations := 0
 	repDir := filepath.Join(c.Verif, "evidence", "reports")
@@ -336,6 +348,7 @@ func (c *Ctx) writeEvidence(wall time.Duration) {
 		"packages":            c.Stats["packages"],
 		"functions":           c.Stats["functions"],
 		"exceptions":          c.Exceptions,
+		"not_decided":         c.NotDecided,
 		"known_findings":      c.KnownHit,
 		"check_errors":        c.CheckErrors,
 		"exhaustive":          true,
